@@ -21,6 +21,10 @@ func (x *Exec) mapKeySort(mt *types.Map) Sort {
 	case *types.Struct:
 		// struct keys made of scalar comps: concatenate bit-vectors when all comps are BV
 		cs := x.compsOf(kt)
+		if len(cs) == 1 {
+			// a wrapper around one scalar (cbor.ByteString): the key is that scalar
+			return cs[0].sort
+		}
 		w := 0
 		for _, c := range cs {
 			if c.sort.K != KBV {
